@@ -99,3 +99,49 @@ Theorem C03_yearday_366_leap_refuted :
     add_dt d (PD y 1 1) = Ok (PD y 12 30) /\ spec_yearday_date y 366 = Some (y, 12, 31).
 Proof. exact yearday_366_leap_refuted. Qed.
 Print Assumptions C03_yearday_366_leap_refuted.
+
+(* the guard of C03_add_dt_spec expressed on the constructor's keyword arguments *)
+Theorem C03_mk_wf : forall k d, mk k = Ok d -> kw_guard k = true -> wf_rd d = true.
+Proof. exact mk_wf. Qed.
+Print Assumptions C03_mk_wf.
+
+Theorem C03_yearday_too_large : forall n, 366 < n ->
+  mk (kw_yearday n) = Err EValue /\ mk (kw_nlyearday n) = Err EValue.
+Proof. exact yearday_too_large. Qed.
+Print Assumptions C03_yearday_too_large.
+
+Theorem C03_yearday_spec_datetime : forall n y m0 d0 hh mi ss us,
+  1 <= n <= 365 -> valid_dt (PDT y m0 d0 hh mi ss us) = true ->
+  exists d yy mm dd,
+    mk (kw_yearday n) = Ok d /\ spec_yearday_date y n = Some (yy, mm, dd) /\
+    add_dt d (PDT y m0 d0 hh mi ss us) = Ok (PDT yy mm dd hh mi ss us).
+Proof. exact yearday_spec_datetime. Qed.
+Print Assumptions C03_yearday_spec_datetime.
+
+(* the [assert 1 <= abs(self.months) <= 12] in __add__ is unreachable for normalised deltas: only
+   ValueError / OverflowError can come out, for every operand *)
+Theorem C03_add_dt_errors_benign : forall d o e, norm_rel (rel d) = true ->
+  add_dt d o = Err e -> e = EValue \/ e = EOverflow.
+Proof. exact add_dt_errors_benign. Qed.
+Print Assumptions C03_add_dt_errors_benign.
+
+(* results stay in the domain (so the theorems compose over repeated additions), and the time
+   line shared by model and spec is a faithful coordinate system of valid dates / datetimes *)
+Theorem C03_add_dt_valid : forall d o r, add_dt d o = Ok r -> valid_dt r = true.
+Proof. exact add_dt_valid. Qed.
+Print Assumptions C03_add_dt_valid.
+
+Theorem C03_timeline_faithful :
+  (forall l, lin (dt_of_lin l) = l) /\ (forall n, lin (date_of_ord n) = n) /\
+  (forall o, valid_dt o = true -> at_lin o (lin o) = Some o).
+Proof. exact timeline_faithful. Qed.
+Print Assumptions C03_timeline_faithful.
+
+(* step 4's counting definition, characterised declaratively: the unique day of weekday w in the
+   n-th 7-day window starting at (n > 0) / ending at (n < 0) the result of steps 1-3 *)
+Theorem C03_nth_weekday_char : forall o w n t, 0 <= w <= 6 -> n <> 0 -> nth_weekday o w n = Some t ->
+  weekday_of_ord t = w /\
+  (0 < n -> o + 7 * (n - 1) <= t <= o + 7 * (n - 1) + 6) /\
+  (n < 0 -> o - 7 * (- n - 1) - 6 <= t <= o - 7 * (- n - 1)).
+Proof. exact nth_weekday_char. Qed.
+Print Assumptions C03_nth_weekday_char.
